@@ -212,6 +212,11 @@ func separatorIdentity(c *Ctx, rule string) {
 // rowsInOrder: the row loop ranges over the result of AllRows() from index 0 upward by one.
 func rowsInOrder(c *Ctx, rule string, fn *ssa.Function, emit func(in ssa.Instruction) bool) {
 	r := c.R
+	// premise: the list AllRows() hands out is the table's rows in insertion order and a copy of the caller's own
+	// (C02's R02.1 and R02.5): nobody else's sorting or filtering of "their" list can reorder a later render
+	importPremises(c, rule, "row-list premise ", "rows would be emitted in an order, or a selection, other than the table's", func(o *Ob) bool {
+		return o.Rule == "R02.1" || o.Rule == "R02.5"
+	}, func() { runC02(c) })
 	eachInstr(fn, func(in ssa.Instruction) {
 		if !emit(in) || loopDepth(in.Block()) == 0 {
 			return
